@@ -99,8 +99,19 @@ def names(ctx):
         subjects, other_ok = [ts["subject"]], []
         info["ci"] = ci
     else:
-        acc, subjects, other_ok = string_matcher(facts, f_try, info=info, adt=H_)
-        acc = {(k_.decode("latin-1") if isinstance(k_, bytes) else k_): v for k_, v in acc.items()}
+        from ..tables import pair_table_loop
+        pt = pair_table_loop(facts, f_try, H_)
+        if pt is not None:
+            # a loop over a literal table of (name, header) pairs, returning the header of the first name that matches
+            ci = pt["mode"] == "ascii-ci"
+            acc = {}
+            for k_, v in pt["pairs"]:
+                acc.setdefault(k_.lower() if ci else k_, v)
+            subjects, other_ok = [pt["subject"]], []
+            info["ci"] = ci
+        else:
+            acc, subjects, other_ok = string_matcher(facts, f_try, info=info, adt=H_)
+            acc = {(k_.decode("latin-1") if isinstance(k_, bytes) else k_): v for k_, v in acc.items()}
     ci = bool(info.get("ci"))
     ctx.ob("R15.1", "names|only-by-comparison", not other_ok, "every Ok of Header::try_from is selected by a comparison with a constant", f_try.loc(0))
     ctx.ob("R15.1", "names|one-subject", len({norm(s) for s in subjects}) == 1, "all comparisons test the same derived string", f_try.loc(0))
